@@ -628,3 +628,39 @@ def close_servers():
     for p in _shared.values():
         p.close()
     _shared.clear()
+
+
+# ----------------------------------------------------------------------------- session-state helpers
+
+def graphemes_of(buf, fresh):
+    """Split `buf` at the byte offsets the real segmenter reported (state['fresh'])."""
+    b = buf.encode("utf-8")
+    offs = list(fresh) + [len(b)]
+    return [b[offs[i]:offs[i + 1]].decode("utf-8") for i in range(len(offs) - 1)]
+
+
+def parse_sel_mode(s):
+    """Debug string of SelectMode -> driver encoding"""
+    if s is None:
+        return None
+    m = re.match(r"Char\((\w+)\)", s)
+    if m:
+        return ["char", m.group(1)]
+    m = re.match(r"Line\((\w+)\)", s)
+    if m:
+        return ["line", m.group(1)]
+    m = re.match(r"Block \{ anchor: (\w+), anchor_pos: (\d+) \}", s)
+    if m:
+        return ["block", m.group(1), int(m.group(2))]
+    return ["?", s]
+
+
+def parse_sel_range(s):
+    if s is None:
+        return None
+    m = re.match(r"OneDim\(\((\d+), (\d+)\)\)", s)
+    if m:
+        return ["one", int(m.group(1)), int(m.group(2))]
+    if s.startswith("TwoDim("):
+        return ["two", [[int(a), int(b)] for a, b in re.findall(r"\((\d+), (\d+)\)", s)]]
+    return ["?", s]
